@@ -42,10 +42,10 @@ class PyKdebugParser:
         self.dyld_addresses = []
         self.dyld_uuids = []
 
-    def kevents(self, kdebug: io.IOBase, extra_classes=()):
+    def kevents(self, kdebug: io.IOBase, extra_classes=(), filter_tid=True):
         events_generator = KdBufParser(self.threads_pids, self.pids_names).parse(kdebug)
         events_generator = filter(lambda e: not isinstance(e, OsLogEvent), events_generator)
-        if self.filter_tid is not None:
+        if filter_tid and self.filter_tid is not None:
             events_generator = filter(lambda e: e.tid == self.filter_tid, events_generator)
         if self.filter_class or self.filter_subclass:
             events_generator = filter(lambda e: self._is_eventid_allowed(e.eventid, extra_classes), events_generator)
@@ -67,8 +67,12 @@ class PyKdebugParser:
                 extra_classes.append(DBG_FSYSTEM)
 
         traces_parser = TracesParser(trace_codes_map, self.threads_pids, self.pids_names)
-        trace_generator = traces_parser.feed_generator(self.kevents(kdebug, extra_classes))
+        # Records of other threads carry state the requested thread's traces depend on (thread announcements, global
+        # strings), so the thread filter is applied to the decoded traces and not to the records.
+        trace_generator = traces_parser.feed_generator(self.kevents(kdebug, extra_classes, filter_tid=False))
 
+        if self.filter_tid is not None:
+            trace_generator = filter(lambda t: t.ktraces[0].tid == self.filter_tid, trace_generator)
         if self.filter_process is not None:
             trace_generator = filter(self._filter_process_callback, trace_generator)
         if has_filters:
